@@ -368,3 +368,23 @@ prop(
                     "signalled_with_partially_received_request": 1000, "signalled_while_idle_without_connections": 500,
                     "differential_pairs": 500, "max_descriptors_in_epoll_set_when_signalled": 12}},
 )
+
+prop(
+    "C12",
+    title="Descriptors passed with a request are delivered once, in order, never leaked",
+    level="exploration",
+    technique="runtime monitoring: conservation of uniquely tagged eventfds from arrival to Request.files, descriptor-table comparison after drop, sentinels against double close; scripted stream and real socketpair/SCM_RIGHTS",
+    design_ref="DESIGN.md §3 C12",
+    engine="scripted-stream",
+    rule="Pipelined error-free streams of 1-4 requests x segmentations (none, at request boundaries, random up to 6 cuts) x "
+         "assignments of descriptors to segments (0-4 segments carry 1-4, occasionally 100-253, descriptors; the EOF read may carry "
+         "some), two thirds over the scripted stream, one third over a real socketpair with one sendmsg per segment (FIONREAD "
+         "before/after each try_read tells which bytes a read consumed). Tags read back from Request.files must equal the tags "
+         "that had arrived and were not yet handed out; descriptor table after drop == baseline; sentinels on all freed numbers "
+         "survive the drop of the connection. evaluations = cases; distinct_nontrivial = distinct cases that passed at least one "
+         "descriptor.",
+    assumptions=["on a stream socket the descriptors of a sendmsg arrive with the read that consumes its first byte (kernel SCM_RIGHTS semantics)",
+                 "input that does not parse without error is out of scope here (C11 judges it)"],
+    floors={"any": {"descriptors_passed": 20000, "reads_completing_several_requests": 1000, "reads_completing_no_request": 1000,
+                    "eof_reads_carrying_descriptors": 200, "sendmsg_with_descriptors": 1000, "descriptors_left_with_the_connection": 200}},
+)
